@@ -53,3 +53,52 @@ func TestDrive(t *testing.T) {
 	}
 	fmt.Printf("DRIVE histories=%d ops=%d\n", len(hs), nops)
 }
+
+// TestSteps executes TLC-generated schedules ($VERIF_IN, one StepHistory per line).
+func TestSteps(t *testing.T) {
+	in, out := os.Getenv("VERIF_IN"), os.Getenv("VERIF_OUT")
+	if in == "" || out == "" {
+		t.Skip("VERIF_IN / VERIF_OUT not set")
+	}
+	si, sn := 0, 1
+	if s := os.Getenv("VERIF_SHARD"); s != "" {
+		p := strings.Split(s, "/")
+		si, _ = strconv.Atoi(p[0])
+		sn, _ = strconv.Atoi(p[1])
+	}
+	data, err := os.ReadFile(in)
+	if err != nil {
+		t.Fatal(err)
+	}
+	Keys()
+	f, err := os.Create(out)
+	if err != nil {
+		t.Fatal(err)
+	}
+	defer f.Close()
+	bw := bufio.NewWriterSize(f, 1<<20)
+	defer bw.Flush()
+	enc := json.NewEncoder(bw)
+	n := 0
+	for i, line := range strings.Split(string(data), "\n") {
+		if strings.TrimSpace(line) == "" || i%sn != si {
+			continue
+		}
+		var h StepHistory
+		if err := json.Unmarshal([]byte(line), &h); err != nil {
+			t.Fatalf("line %d: %v", i+1, err)
+		}
+		if h.H == 0 {
+			h.H = i + 1
+		}
+		var evs []interface{}
+		synctest.Test(t, func(t *testing.T) { evs = RunStepHistory(h) })
+		for _, e := range evs {
+			if err := enc.Encode(e); err != nil {
+				t.Fatal(err)
+			}
+		}
+		n++
+	}
+	fmt.Printf("STEPS histories=%d\n", n)
+}
